@@ -849,9 +849,9 @@ example : ∃ ρ : Typing, WellTyped ρ
     (.bin "and" (.bin ">" (.bin "+" (.field .this "x") (.lit "1" (.int 1))) (.field (.var "A") "y")) (.field .this "b")) := by
   refine ⟨fun s => if s == "b" then T.BOOL else if s == "@A" then T.MESSAGE else T.NUMBER, ?_⟩
   simp only [WellTyped]
-  refine ⟨⟨"and", 1, 1, 1, true, true, true⟩, by decide, ?_, ?_, by decide, by decide, by decide⟩
-  · refine ⟨⟨">", 2, 2, 1, true, false, false⟩, by decide, ?_, ?_, by decide, by decide, by decide⟩
-    · exact ⟨⟨"+", 2, 2, 2, true, true, true⟩, by decide, by decide, trivial, by decide, by decide, by decide⟩
+  refine ⟨⟨"and", T.BOOL, T.BOOL, T.BOOL, true, true, true⟩, by decide, ?_, ?_, by decide, by decide, by decide⟩
+  · refine ⟨⟨">", T.NUMBER, T.NUMBER, T.BOOL, true, false, false⟩, by decide, ?_, ?_, by decide, by decide, by decide⟩
+    · exact ⟨⟨"+", T.NUMBER, T.NUMBER, T.NUMBER, true, true, true⟩, by decide, by decide, trivial, by decide, by decide, by decide⟩
     · decide
   · decide
 
